@@ -45,12 +45,13 @@ class PROP(PropCheck):
     id = "C15"
     theorems = ["C15_math_table_is_reference", "C15_round_int_integral", "C15_round_int_specials", "C15_show_specials",
                 "C15_search_in_interval", "C15_layout_integer", "C15_random_in_range", "C15_random_reaches_both_ends",
-                "C15_roundtrip_examples", "C15_show_total", "C15_show_shortest", "C15_show_parse_roundtrip"]
-    audit_modules = ["C15", "C15b"]
+                "C15_roundtrip_examples", "C15_show_total", "C15_show_shortest", "C15_show_parse_roundtrip",
+                "C15_round_int_value", "C15_round_int_shape"]
+    audit_modules = ["C15", "C15b", "C15c"]
     allowed_axioms = ("FloatAxioms.Prim2SF_valid", "Prim2SF_valid", "FloatAxioms.Prim2SF_SF2Prim", "Prim2SF_SF2Prim")
     coq_imports = ["Obs"]
     model_targets = ["theories/Obs.vo"]
-    prop_targets = ["theories/Props/C15.vo", "theories/Props/C15b.vo"]
+    prop_targets = ["theories/Props/C15.vo", "theories/Props/C15b.vo", "theories/Props/C15c.vo"]
     harness_mode = "run"
     trusted_base = [
         "Coq 8.16.1 kernel and bytecode VM; primitive floats",
